@@ -193,7 +193,7 @@ func (s *session) runV1(name string, op J) J {
 		}
 		return r
 	case "query":
-		in := &dynamodb.QueryInput{TableName: table, KeyConditionExpression: pstr(op, "keycond"), FilterExpression: pstr(op, "filter"), ExpressionAttributeNames: v1Names(op), ExpressionAttributeValues: itemToV1(obj(op, "values")), ExclusiveStartKey: itemToV1(obj(op, "esk"))}
+		in := &dynamodb.QueryInput{TableName: table, KeyConditionExpression: pstr(op, "keycond"), FilterExpression: pstr(op, "filter"), ExpressionAttributeNames: v1Names(op), ExpressionAttributeValues: itemToV1(obj(op, "values")), ExclusiveStartKey: itemToV1(obj(op, "esk")), ProjectionExpression: pstr(op, "projection")}
 		if has(op, "index") {
 			in.IndexName = aws.String(str(op, "index"))
 		}
@@ -212,7 +212,7 @@ func (s *session) runV1(name string, op J) J {
 		}
 		return r
 	case "scan":
-		in := &dynamodb.ScanInput{TableName: table, FilterExpression: pstr(op, "filter"), ExpressionAttributeNames: v1Names(op), ExpressionAttributeValues: itemToV1(obj(op, "values")), ExclusiveStartKey: itemToV1(obj(op, "esk"))}
+		in := &dynamodb.ScanInput{TableName: table, FilterExpression: pstr(op, "filter"), ExpressionAttributeNames: v1Names(op), ExpressionAttributeValues: itemToV1(obj(op, "values")), ExclusiveStartKey: itemToV1(obj(op, "esk")), ProjectionExpression: pstr(op, "projection")}
 		if has(op, "index") {
 			in.IndexName = aws.String(str(op, "index"))
 		}
